@@ -84,13 +84,21 @@ std::shared_ptr<ISource> EntityWithSourcesHDF5::getSource(const size_t index) co
 }
 
 void EntityWithSourcesHDF5::sources(const std::vector<Source> &sources) {
+    // resolve the new list first: a rejected call must not have removed anything
+    std::vector<std::string> ids;
+    for (const auto &src : sources) {
+        if (block()->hasEntity(src) ) {
+            std::string id = src.id();
+            if (std::find(ids.begin(), ids.end(), id) != ids.end())
+                throw std::runtime_error("EntityWithSourcesHDF5::sources: Source given twice!");
+            ids.push_back(id);
+        }
+    }
     while (sourceCount() > 0) {
         removeSource(getSource(0)->id());
     }
-    for (const auto &src : sources) {
-        if (block()->hasEntity(src) ) {
-            addSource(src.id());
-        }
+    for (const auto &id : ids) {
+        addSource(id);
     }
 }
 
